@@ -3,7 +3,7 @@ import json
 checks = {
  "C01": ("termmc", "bounded exhaustive exploration of every constructor composition (full alphabet of library / stdlib / pkg-errors / OS / net / gRPC / user error kinds) up to the stated depth, every REG string in every slot, x hop sequences hop_K^k, on the real code; differential oracle: node-by-node shape equality with the origin, wire fixpoint from the 2nd encoding on; a twin encoded before any other use arrives the same", "bounded by term depth, REG alphabet and hop count reported in the evidence; gogo protobuf marshalling is deterministic"),
  "C02": ("termmc", "exhaustive exploration of (error, reference) pairs x transport histories (knowing processes, every singleton / the full set / all subsets of unknown types, evaluation at the unknowing process) on the real Is; oracle Is(after)=Is(before) with the reason-aware exemptions the statement names", "references: sentinels, nodes, fresh and perturbed copies; exemptions counted in the evidence; unknowing processes simulated by a registry-view hook"),
- "C03": ("termmc", "exhaustive taint exploration: every composition up to the bound x every hostile string in every unsafe slot x stages (local, k hops, unknowing hop, payload-blind hop); no unsafe token may occur in any PII-free output (redacted renderings, safe details, wire reportable payload / type names, every Sentry field)", "safe/unsafe classification of constructor arguments taken from the library documentation; hostile alphabet as listed in tm/term.go"),
+ "C03": ("termmc", "exhaustive taint exploration: every composition up to the bound x every hostile string in every unsafe slot x stages (local, k hops, unknowing hop, payload-blind hop, sender running the previous library version (+ relay)); no unsafe token may occur in any PII-free output (redacted renderings, safe details, wire reportable payload / type names, every Sentry field)", "safe/unsafe classification of constructor arguments taken from the library documentation; hostile alphabet as listed in tm/term.go"),
  "C04": ("termmc", "exhaustive exploration of trees x every subset of 'types unknown to the intermediary' x {origin->U(S)->K vs origin->K}; text, type names, safe details, byte-exact re-encoding, and equality of the final receiver's view (text, Is, annotations, %+v)", "unknowing process = registries lacking the keys (hook), cross-validated against hook-free wire renaming on every state"),
  "C05": ("faultmc", "exhaustive structured fault enumeration over every registered decoder key (from the live registries) x carrier form x payload fault x details fault x message type x embedding position, plus every single/pair field substitution on every wire message of the bounded term space; plus every register/unregister history of up to 3 (thorough 4) calls on a key in each decoder registry; DecodeError and a 23-observer battery must not panic", "nested errors structurally complete (the property's precondition); arbitrary bytes are replaced by exhaustive structured substitution"),
  "C06": ("termmc", "exhaustive exploration of compositions x hostile strings x {local, decoded, opaque} x verbs; marker grammar per line, congruence with the plain rendering for regular strings, refusal of %q/%x/%X", "bounded by depth and the hostile alphabet"),
